@@ -8,7 +8,7 @@
    those of get_template (C05's subject) and enter the statements only through chans_of.  WF d = the
    arrays of d have consistent shapes and every template id is below n_templates. *)
 From Coq Require Import ZArith List Lia Bool Arith Sorted.
-From PV Require Import Base.NpSearch C08.Model C08.Spec C08.Proofs C08.Proofs2 C08.Proofs3.
+From PV Require Import Base.NpSearch C08.Model C08.Spec C08.Proofs C08.Proofs2 C08.Proofs3 C08.Proofs4.
 Import ListNotations.
 Open Scope Z_scope.
 
@@ -78,6 +78,35 @@ Theorem C08_identity : forall (d : dset),
 Proof. exact load_identity. Qed.
 Print Assumptions C08_identity.
 
+(* Totality.  Templates_OK d unw = get_template succeeds on every template id (channel selection is C05's
+   subject; it fails only on malformed geometry).  Then the mean waveform of every cluster that has a spike
+   exists, and loading succeeds on every well-formed data set with at least one spike and non-negative ids --
+   so C08_single / C08_mean / C08_merge_map_loaded are not vacuous anywhere in that domain. *)
+Theorem C08_mean_fn_total : forall (d : dset) (c : Z) (unw : bool),
+  WF d -> Templates_OK d unw -> In c (d_sc d) -> exists m, mean_waveforms d c unw = Some m.
+Proof. exact mean_waveforms_total. Qed.
+Print Assumptions C08_mean_fn_total.
+
+Theorem C08_loads : forall (d : dset),
+  WF d -> Templates_OK d false -> d_sc d <> [] -> (forall c, In c (d_sc d) -> 0 <= c) ->
+  exists m, load d = Some m.
+Proof. exact load_total. Qed.
+Print Assumptions C08_loads.
+
+(* the weights are the provenance counts: template t has positive weight in cluster c exactly when some
+   spike has cluster c and template t *)
+Theorem C08_weights : forall (d : dset) (c t : Z), 0 < cnt d c t <-> PairIn (d_st d) (d_sc d) c t.
+Proof. exact cnt_pos. Qed.
+Print Assumptions C08_weights.
+
+(* the table-driven evaluation of the specification used by the comparator (Corr.v, clauses 24 and 26) is
+   the specification *)
+Theorem C08_tables : forall (d : dset) (unw : bool) (c : Z) (tb s : nat) (k : Z),
+  (wnum_f (tables_of d unw c) s k = wnum d unw c s k) /\
+  (mean_rows_f d c (tables_of d false c) (chans_of d false tb) = mean_rows d c tb).
+Proof. intros. split; [apply wnum_f_eq|apply mean_rows_f_eq]. Qed.
+Print Assumptions C08_tables.
+
 (* the boolean checkers used by the correspondence decide the declarative notions *)
 Theorem C08_checkers : forall (d : dset) (c : Z) (tb : nat),
   (wf_b d = true -> WF d) /\ (dominant_b d c tb = true <-> Dominant d c tb).
@@ -108,6 +137,8 @@ Proof.
   split; [exists 1%nat; split; reflexivity|]. split; [exists 2%nat; split; reflexivity|].
   split; [apply dominant_b_spec; reflexivity|]. split; [apply dominant_b_spec; reflexivity|]. discriminate.
 Qed.
+Example C08_ex_templates_ok : forall t, (t < 3)%nat -> get_template ex_d t false <> None /\ get_template ex_d t true <> None.
+Proof. intros [|[|[|t]]] H; try lia; split; vm_compute; discriminate. Qed.
 Example C08_ex_mean_fn : exists m, mean_waveforms ex_d 1 true = Some m /\ mw_den m = 2 /\ mw_chans m = [2].
 Proof. eexists. split; [vm_compute; reflexivity|]. split; reflexivity. Qed.
 Example C08_ex_identity :
